@@ -49,6 +49,9 @@ func (o c14op) String() string {
 	if o.kind == 'N' {
 		return fmt.Sprintf("Find;idle;FindNext(%v)", o.d)
 	}
+	if o.kind == 'M' {
+		return fmt.Sprintf("L-adjacent-loops(%v)", o.d)
+	}
 	if o.kind == 'F' {
 		return fmt.Sprintf("ReplaceFunc-with-idle(%v)", o.d)
 	}
@@ -116,9 +119,14 @@ func c14runOp(o c14op, out *[]c14obs) {
 		ob := c14note(c14op{'Q', o.d}, t0, s.Now, err)
 		ob.t1 = ob.t0 // every scan of the loop finishes at once: a timeout is never due, whatever the evaluator takes
 		*out = append(*out, ob)
-	case 'L', 'Q':
+	case 'L', 'Q', 'M':
 		re := regexp2.MustCompile(`(a+)+$`)
 		in := c14long
+		if o.kind == 'M' {
+			// catastrophic without any group loop: adjacent single-character loops separated by literals
+			re = regexp2.MustCompile(`^.*a.*a.*a.*a.*a.*a.*!x`)
+			in = strings.Repeat("a", 40) + "!y"
+		}
 		if o.kind == 'Q' {
 			re = regexp2.MustCompile(`ab`)
 			in = "ab"
@@ -127,6 +135,9 @@ func c14runOp(o c14op, out *[]c14obs) {
 		t0 := s.Now
 		_, err := re.MatchString(in)
 		ob := c14obs{op: o, t0: t0, t1: s.Now}
+		if o.kind == 'M' {
+			ob.op.kind = 'L' // same oracle as L
+		}
 		if err != nil {
 			if strings.Contains(err.Error(), "match timeout") {
 				ob.timedOut = true
@@ -386,6 +397,11 @@ func c14Scenarios(tier string) []schedScenario {
 		mk(fmt.Sprintf("continuation P=4ms: %v", h), [][]c14op{h}, 4*time.Millisecond, 2, 0, 0)
 	}
 	mk("continuation P=4ms: [Find;idle;FindNext(16ms)] || [Q(40ms)]", [][]c14op{{{'N', d1}}, {{'Q', d2}}}, 4*time.Millisecond, 1, 0, 0)
+	// a catastrophic match whose blow-up comes from adjacent single-character loops (no group loop): the timeout must
+	// be noticed on every path through the interpreter, not only where group loops jump backwards
+	for _, h := range [][]c14op{{{'M', d1}}, {{'Q', d1}, {'M', d2}}, {{'M', d1}, {'I', 1300 * time.Millisecond}, {'M', d1}}, {{'M', d2}, {'S', 0}, {'M', d1}}} {
+		mk(fmt.Sprintf("adjacent-loops P=4ms: %v", h), [][]c14op{h}, 4*time.Millisecond, 1, 0, 0)
+	}
 	// very large timeouts (just below "forever"): the deadline arithmetic must not overflow; StopTimeoutClock ends
 	// the run because the clock legitimately stays alive until the deadline
 	for _, d := range []time.Duration{time.Duration(math.MaxInt64 - 1), time.Duration(math.MaxInt64) - 50*time.Millisecond, time.Duration(math.MaxInt64) - 200*time.Millisecond, 200 * 365 * 24 * time.Hour} {
